@@ -60,9 +60,9 @@ example : Spec.cleanAt [0x61, 13, 10, 0x62, 10, 0x63] 5 = true ∧ filePosition 
 
 /-- the frame the code should hold for an activation -/
 def frameOfAct (a : Spec.Act) : Frame :=
-  { callee := a.name, native := a.native, file := if a.native then none else some 0, offset := a.cur }
+  { callee := a.name, native := a.native, file := if a.native then none else some a.file, offset := a.cur }
 
-def FileOK (f : Frame) : Prop := f.file = if f.native then none else some 0
+def FileOK (f : Frame) (fl : Nat) : Prop := f.file = if f.native then none else some fl
 
 theorem setTopOffset_cons (o : Int) (f : Frame) (r : Stack) :
     setTopOffset o (f :: r) = { f with offset := o } :: r := rfl
@@ -80,99 +80,110 @@ theorem runPre_noEval (pre : List Pre) : ∀ (f : Frame) (rest : Stack), Spec.ha
       exact ⟨o, by simp [runPre, setTopOffset, ho]⟩
     | directEval off k => simp [Spec.hasEval] at h
 
-def LevelOK (lv : Level) : Prop := lv.form ≠ .other ∧ lv.via ≠ .implicit ∧ Spec.hasEval lv.pre = false
+def LevelOK (lv : Level) : Prop :=
+  lv.form ≠ .other ∧ lv.via ≠ .implicit ∧ lv.via ≠ .evalDirect ∧ Spec.hasEval lv.pre = false
 
 theorem atvOf_recorded (fm : Form) (off : Int) (h : fm ≠ .other) : atvOf fm off = off := by
   cases fm <;> simp_all [atvOf]
 
-theorem stack_shape (ls : List Level) : ∀ (top : Frame) (rest : Stack) (cur : Int), FileOK top →
+theorem stack_shape (ls : List Level) : ∀ (top : Frame) (fl : Nat) (rest : Stack) (cur : Int), FileOK top fl →
     (∀ lv ∈ ls, LevelOK lv) →
-    setTopOffset cur (enterLevels 0 ls (top :: rest)) =
-      ((Spec.acts top.callee top.native ls cur).reverse.map frameOfAct) ++ rest := by
+    setTopOffset cur (enterLevels ls (top :: rest)) =
+      ((Spec.acts top.callee top.native fl ls cur).reverse.map frameOfAct) ++ rest := by
   induction ls with
   | nil =>
-    intro top rest cur hf _
+    intro top fl rest cur hf _
     simp only [enterLevels, setTopOffset_cons, Spec.acts, List.reverse_cons, List.reverse_nil, List.nil_append,
       List.map_cons, List.map_nil, List.cons_append, frameOfAct]
     congr 1
     cases top; simp_all [FileOK]
   | cons lv ls ih =>
-    intro top rest cur hf hall
+    intro top fl rest cur hf hall
     have hlv : LevelOK lv := hall lv (by simp)
     have hls : ∀ l ∈ ls, LevelOK l := fun l hl => hall l (by simp [hl])
-    obtain ⟨hform, hvia, hev⟩ := hlv
+    obtain ⟨hform, hvia, hvia2, hev⟩ := hlv
     obtain ⟨o, ho⟩ := runPre_noEval lv.pre top rest hev
-    have htop : ({ top with offset := lv.off } : Frame) = frameOfAct { name := top.callee, native := top.native, cur := lv.off } := by
+    have htop : ({ top with offset := lv.off } : Frame) = frameOfAct { name := top.callee, native := top.native, file := fl, cur := lv.off } := by
       cases top; simp_all [FileOK, frameOfAct]
     simp only [enterLevels, enterLevel, ho, setTopOffset_cons, atvOf_recorded _ _ hform]
     cases hv : lv.via with
     | implicit => exact absurd hv hvia
     | direct =>
       simp only [Spec.acts, hv]
-      rw [ih (nodeFrame lv.name 0) _ cur (by simp [FileOK, nodeFrame]) hls]
+      rw [ih (nodeFrame lv.name lv.file) lv.file _ cur (by simp [FileOK, nodeFrame]) hls]
       simp [nodeFrame, htop]
     | construct =>
       simp only [Spec.acts, hv]
-      rw [ih (nodeFrame lv.name 0) _ cur (by simp [FileOK, nodeFrame]) hls]
+      rw [ih (nodeFrame lv.name lv.file) lv.file _ cur (by simp [FileOK, nodeFrame]) hls]
       simp [nodeFrame, htop]
     | bound =>
       simp only [Spec.acts, hv]
-      rw [ih (nodeFrame lv.name 0) _ cur (by simp [FileOK, nodeFrame]) hls]
+      rw [ih (nodeFrame lv.name lv.file) lv.file _ cur (by simp [FileOK, nodeFrame]) hls]
       simp [nodeFrame, htop]
     | viaNative n =>
       simp only [Spec.acts, hv]
-      rw [ih (nodeFrame lv.name 0) _ cur (by simp [FileOK, nodeFrame]) hls]
+      rw [ih (nodeFrame lv.name lv.file) lv.file _ cur (by simp [FileOK, nodeFrame]) hls]
       simp [nodeFrame, htop, nativeFrame, frameOfAct]
     | nativeOnly =>
       simp only [Spec.acts, hv]
-      rw [ih (nativeFrame lv.name) _ cur (by simp [FileOK, nativeFrame]) hls]
+      rw [ih (nativeFrame lv.name) 0 _ cur (by simp [FileOK, nativeFrame]) hls]
       simp [nativeFrame, htop]
+    | evalDirect => exact absurd hv hvia2
+    | evalIndirect =>
+      simp only [Spec.acts, hv]
+      rw [ih { callee := "", file := some lv.file } lv.file _ cur (by simp [FileOK]) hls]
+      simp [htop, nativeFrame, frameOfAct]
 
 /-- all activations but the innermost, outermost first -/
-def outerActs (name : String) (native : Bool) : List Level → List Spec.Act
+def outerActs (name : String) (native : Bool) (file : Nat) : List Level → List Spec.Act
   | [] => []
   | lv :: ls =>
+    let here : Spec.Act := { name := name, native := native, file := file, cur := lv.off }
     match lv.via with
-    | .viaNative n => { name := name, native := native, cur := lv.off } :: { name := n, native := true, cur := 0 } :: outerActs lv.name false ls
-    | .nativeOnly => { name := name, native := native, cur := lv.off } :: outerActs lv.name true ls
-    | _ => { name := name, native := native, cur := lv.off } :: outerActs lv.name false ls
+    | .viaNative n => here :: { name := n, native := true, file := 0, cur := 0 } :: outerActs lv.name false lv.file ls
+    | .nativeOnly => here :: outerActs lv.name true 0 ls
+    | .evalDirect => here :: outerActs "" false lv.file ls
+    | .evalIndirect => here :: { name := "eval", native := true, file := 0, cur := 0 } :: outerActs "" false lv.file ls
+    | _ => here :: outerActs lv.name false lv.file ls
 
-def innerAct (name : String) (native : Bool) : List Level → Int → Spec.Act
-  | [], cur => { name := name, native := native, cur := cur }
+def innerAct (name : String) (native : Bool) (file : Nat) : List Level → Int → Spec.Act
+  | [], cur => { name := name, native := native, file := file, cur := cur }
   | lv :: ls, cur =>
     match lv.via with
-    | .nativeOnly => innerAct lv.name true ls cur
-    | _ => innerAct lv.name false ls cur
+    | .nativeOnly => innerAct lv.name true 0 ls cur
+    | .evalDirect => innerAct "" false lv.file ls cur
+    | .evalIndirect => innerAct "" false lv.file ls cur
+    | _ => innerAct lv.name false lv.file ls cur
 
-theorem acts_split (ls : List Level) : ∀ (name : String) (native : Bool) (cur : Int),
-    Spec.acts name native ls cur = outerActs name native ls ++ [innerAct name native ls cur] := by
+theorem acts_split (ls : List Level) : ∀ (name : String) (native : Bool) (fl : Nat) (cur : Int),
+    Spec.acts name native fl ls cur = outerActs name native fl ls ++ [innerAct name native fl ls cur] := by
   induction ls with
-  | nil => intro name native cur; rfl
+  | nil => intro name native fl cur; rfl
   | cons lv ls ih =>
-    intro name native cur
+    intro name native fl cur
     cases hv : lv.via <;> simp [Spec.acts, outerActs, innerAct, hv, ih]
 
-theorem outerActs_nonneg (ls : List Level) : ∀ (name : String) (native : Bool),
-    (∀ lv ∈ ls, 0 ≤ lv.off) → ∀ a ∈ outerActs name native ls, 0 ≤ a.cur := by
+theorem outerActs_nonneg (ls : List Level) : ∀ (name : String) (native : Bool) (fl : Nat),
+    (∀ lv ∈ ls, 0 ≤ lv.off) → ∀ a ∈ outerActs name native fl ls, 0 ≤ a.cur := by
   induction ls with
-  | nil => intro _ _ _ a ha; simp [outerActs] at ha
+  | nil => intro _ _ _ _ a ha; simp [outerActs] at ha
   | cons lv ls ih =>
-    intro name native hall a ha
+    intro name native fl hall a ha
     have h0 : 0 ≤ lv.off := hall lv (by simp)
     have hls : ∀ l ∈ ls, 0 ≤ l.off := fun l hl => hall l (by simp [hl])
     cases hv : lv.via <;> simp only [outerActs, hv, List.mem_cons] at ha <;>
       (rcases ha with ha | ha) <;> first
         | (subst ha; simpa using h0)
-        | exact ih _ _ hls a ha
-        | (rcases ha with ha | ha <;> first | (subst ha; simp) | exact ih _ _ hls a ha)
+        | exact ih _ _ _ hls a ha
+        | (rcases ha with ha | ha <;> first | (subst ha; simp) | exact ih _ _ _ hls a ha)
 
-theorem innerAct_native (ls : List Level) : ∀ (name : String) (native : Bool) (cur : Int),
-    (innerAct name native ls cur).native =
+theorem innerAct_native (ls : List Level) : ∀ (name : String) (native : Bool) (fl : Nat) (cur : Int),
+    (innerAct name native fl ls cur).native =
       (match ls.getLast? with | some lv => lv.via == .nativeOnly | none => native) := by
   induction ls with
-  | nil => intro _ _ _; rfl
+  | nil => intro _ _ _ _; rfl
   | cons lv ls ih =>
-    intro name native cur
+    intro name native fl cur
     cases ls with
     | nil => cases hv : lv.via <;> simp [innerAct, hv]
     | cons l2 ls2 =>
@@ -182,11 +193,11 @@ theorem innerAct_native (ls : List Level) : ∀ (name : String) (native : Bool) 
           | none => simp at hg
           | some x => rfl)
 
-theorem innerAct_cur (ls : List Level) : ∀ (name : String) (native : Bool) (cur : Int),
-    (innerAct name native ls cur).cur = cur := by
+theorem innerAct_cur (ls : List Level) : ∀ (name : String) (native : Bool) (fl : Nat) (cur : Int),
+    (innerAct name native fl ls cur).cur = cur := by
   induction ls with
-  | nil => intro _ _ _; rfl
-  | cons lv ls ih => intro name native cur; cases hv : lv.via <;> simp [innerAct, hv, ih]
+  | nil => intro _ _ _ _; rfl
+  | cons lv ls ih => intro name native fl cur; cases hv : lv.via <;> simp [innerAct, hv, ih]
 
 theorem cons_walkOuter (x : Frame) (T : Stack) (limit : Int) (h : ∀ f ∈ T, nonneg f = true) :
     x :: walkOuter T limit = Spec.applyLimit limit (x :: T) := by
@@ -201,28 +212,38 @@ theorem cons_walkOuter (x : Frame) (T : Stack) (limit : Int) (h : ∀ f ∈ T, n
     have h2 : ((n : Int) + 1).toNat = n + 1 := by omega
     simp [Spec.applyLimit, h1, h2]
 
-theorem loc_act (fname : String) (src : Src) (more : List FileEnt) (a : Spec.Act)
-    (h : a.native = true ∨ Spec.cleanAt src (a.cur - 1) = true) :
-    location (⟨fname, src⟩ :: more) (frameOfAct a) = Spec.actOut fname src a := by
+/-- the region predicate for one activation: its position is computed in a `clean` prefix -/
+def posOK (files : List FileEnt) (a : Spec.Act) : Prop :=
+  a.native = true ∨ match files[a.file]? with
+    | some fe => Spec.cleanAt fe.src (a.cur - 1) = true
+    | none => True
+
+theorem loc_act (files : List FileEnt) (a : Spec.Act) (h : posOK files a) :
+    location files (frameOfAct a) = Spec.actOut files a := by
   cases hn : a.native with
   | true => simp [location, frameOfAct, Spec.actOut, hn]
   | false =>
-    have hc : Spec.cleanAt src (a.cur - 1) = true := by simpa [hn] using h
-    simp only [location, frameOfAct, Spec.actOut, hn, Bool.false_eq_true, if_false, List.getElem?_cons_zero]
-    rw [position_lf src a.cur hc]
-    cases Spec.positionAt src (a.cur - 1) with
+    simp only [location, frameOfAct, Spec.actOut, hn, Bool.false_eq_true, if_false]
+    cases hf : files[a.file]? with
     | none => rfl
-    | some p => rfl
+    | some fe =>
+      have hc : Spec.cleanAt fe.src (a.cur - 1) = true := by
+        simpa [posOK, hn, hf] using h
+      simp only []
+      rw [position_lf fe.src a.cur hc]
+      cases Spec.positionAt fe.src (a.cur - 1) with
+      | none => rfl
+      | some p => rfl
 
 theorem applyLimit_map {α β : Type} (g : α → β) (limit : Int) (l : List α) :
     (Spec.applyLimit limit l).map g = Spec.applyLimit limit (l.map g) := by
   unfold Spec.applyLimit
   split <;> simp [List.map_take]
 
-theorem trace_complete_partial (fname : String) (src : Src) (more : List FileEnt) (limit : Int) (sc : Scenario)
-    (hdev : Spec.traceDevs src sc = [])
+theorem trace_complete_partial (files : List FileEnt) (limit : Int) (sc : Scenario)
+    (hdev : Spec.traceDevs files sc = [])
     (hoff : ∀ lv ∈ sc.levels, 0 ≤ lv.off) :
-    trace (⟨fname, src⟩ :: more) limit sc = Spec.trace fname src limit sc := by
+    trace files limit sc = Spec.trace files limit sc := by
   -- unpack the region predicates
   simp only [Spec.traceDevs, List.append_eq_nil_iff] at hdev
   obtain ⟨⟨⟨⟨h1, h2⟩, h3⟩, h4⟩, h5⟩ := hdev
@@ -230,7 +251,7 @@ theorem trace_complete_partial (fname : String) (src : Src) (more : List FileEnt
   have h2 : Spec.devImplicit sc = false := by cases h : Spec.devImplicit sc <;> simp_all
   have h3 : Spec.devEvalFile sc = false := by cases h : Spec.devEvalFile sc <;> simp_all
   have h4 : Spec.devErrPos sc = false := by cases h : Spec.devErrPos sc <;> simp_all
-  have h5 : Spec.devPositionCR src sc = false := by cases h : Spec.devPositionCR src sc <;> simp_all
+  have h5 : Spec.devPositionCR files sc = false := by cases h : Spec.devPositionCR files sc <;> simp_all
   have hlv : ∀ lv ∈ sc.levels, LevelOK lv := by
     intro lv hm
     simp only [Spec.devUnrecorded, List.any_eq_false] at h1
@@ -239,38 +260,45 @@ theorem trace_complete_partial (fname : String) (src : Src) (more : List FileEnt
     have a1 := h1 lv hm
     have a2 := h2 lv hm
     have a3 := h3.1 lv hm
-    refine ⟨?_, ?_, ?_⟩
+    refine ⟨?_, ?_, ?_, ?_⟩
     · intro hf; simp_all
     · intro hv; simp_all
-    · simpa using a3
+    · intro hv; simp_all
+    · simp_all
   have hpre : Spec.hasEval sc.pre = false := by
     simp only [Spec.devEvalFile, Bool.or_eq_false_iff] at h3; exact h3.2
   -- the scope chain at the raising construct
-  have hS : ∀ cur, setTopOffset cur (enterLevels 0 sc.levels (globalStack 0)) =
-      frameOfAct (innerAct "" false sc.levels cur) :: (outerActs "" false sc.levels).reverse.map frameOfAct := by
+  have hS : ∀ cur, setTopOffset cur (enterLevels sc.levels (globalStack 0)) =
+      frameOfAct (innerAct "" false 0 sc.levels cur) :: (outerActs "" false 0 sc.levels).reverse.map frameOfAct := by
     intro cur
-    have := stack_shape sc.levels { callee := "", file := some 0 } [] cur (by simp [FileOK]) hlv
+    have := stack_shape sc.levels { callee := "", file := some 0 } 0 [] cur (by simp [FileOK]) hlv
     simpa [globalStack, acts_split] using this
   -- outer frames all pass the `offset >= 0` filter
-  have hT : ∀ f ∈ (outerActs "" false sc.levels).reverse.map frameOfAct, nonneg f = true := by
+  have hT : ∀ f ∈ (outerActs "" false 0 sc.levels).reverse.map frameOfAct, nonneg f = true := by
     intro f hf
     simp only [List.mem_map, List.mem_reverse] at hf
     obtain ⟨a, ha, rfl⟩ := hf
-    have := outerActs_nonneg sc.levels "" false hoff a ha
+    have := outerActs_nonneg sc.levels "" false 0 hoff a ha
     simpa [nonneg, frameOfAct] using this
   -- positions of every expected frame are computed alike
-  have hpos : ∀ a ∈ Spec.acts "" false sc.levels (Spec.raiseOff sc.raise),
-      a.native = true ∨ Spec.cleanAt src (a.cur - 1) = true := by
+  have hpos : ∀ a ∈ Spec.acts "" false 0 sc.levels (Spec.raiseOff sc.raise), posOK files a := by
     intro a ha
     simp only [Spec.devPositionCR, List.any_eq_false] at h5
     have := h5 a ha
-    cases hn : a.native <;> simp_all
-  have hinner : (innerAct "" false sc.levels (Spec.raiseOff sc.raise)).native = Spec.innermostNative sc.levels := by
+    unfold posOK
+    cases hn : a.native with
+    | true => left; rfl
+    | false =>
+      right
+      cases hf : files[a.file]? with
+      | none => trivial
+      | some fe => simp_all
+  have hinner : (innerAct "" false 0 sc.levels (Spec.raiseOff sc.raise)).native = Spec.innermostNative sc.levels := by
     rw [innerAct_native]; rfl
   -- shape of the spec side
-  have hspec : Spec.trace fname src limit sc = Spec.applyLimit limit
-      ((frameOfAct (innerAct "" false sc.levels (Spec.raiseOff sc.raise)) ::
-        (outerActs "" false sc.levels).reverse.map frameOfAct).map (location (⟨fname, src⟩ :: more))) := by
+  have hspec : Spec.trace files limit sc = Spec.applyLimit limit
+      ((frameOfAct (innerAct "" false 0 sc.levels (Spec.raiseOff sc.raise)) ::
+        (outerActs "" false 0 sc.levels).reverse.map frameOfAct).map (location files)) := by
     simp only [Spec.trace, acts_split, List.reverse_append, List.reverse_cons, List.reverse_nil, List.nil_append,
       List.cons_append, List.map_cons, List.map_map]
     congr 2
@@ -282,15 +310,15 @@ theorem trace_complete_partial (fname : String) (src : Src) (more : List FileEnt
       rw [loc_act]
       exact hpos _ (by simp only [acts_split]; simp at ha; simp [ha])
   -- the code side: head frame (possibly with a different offset when native) followed by the walk
-  have hcode : ∃ x : Frame, location (⟨fname, src⟩ :: more) x =
-        location (⟨fname, src⟩ :: more) (frameOfAct (innerAct "" false sc.levels (Spec.raiseOff sc.raise))) ∧
-      traceFrames limit sc = x :: walkOuter ((outerActs "" false sc.levels).reverse.map frameOfAct) limit := by
+  have hcode : ∃ x : Frame, location files x =
+        location files (frameOfAct (innerAct "" false 0 sc.levels (Spec.raiseOff sc.raise))) ∧
+      traceFrames limit sc = x :: walkOuter ((outerActs "" false 0 sc.levels).reverse.map frameOfAct) limit := by
     -- name the scope chain
-    cases hSt : enterLevels 0 sc.levels (globalStack 0) with
+    cases hSt : enterLevels sc.levels (globalStack 0) with
     | nil => have := hS 0; rw [hSt] at this; simp [setTopOffset] at this
     | cons f rest =>
-      have hS' : ∀ cur, ({ f with offset := cur } : Frame) = frameOfAct (innerAct "" false sc.levels cur) ∧
-          rest = (outerActs "" false sc.levels).reverse.map frameOfAct := by
+      have hS' : ∀ cur, ({ f with offset := cur } : Frame) = frameOfAct (innerAct "" false 0 sc.levels cur) ∧
+          rest = (outerActs "" false 0 sc.levels).reverse.map frameOfAct := by
         intro cur
         have := hS cur
         rw [hSt, setTopOffset_cons] at this
@@ -373,8 +401,8 @@ theorem trace_limit_zero_unlimited (f : Frame) (outer : Stack) (limit : Int) (h 
 /-- non-vacuity of `trace_complete_partial`: f calls g through a method, g reads an undefined variable -/
 example :
     let src : Src := [102, 117, 110, 99, 116, 105, 111, 110, 32, 103, 40, 41, 123, 32, 122, 122, 122, 32, 125, 10, 118, 97, 114, 32, 111, 32, 61, 32, 123, 109, 58, 32, 102, 117, 110, 99, 116, 105, 111, 110, 32, 102, 40, 41, 123, 32, 103, 40, 41, 32, 125, 125, 10, 111, 46, 109, 40, 41]  -- 'function g(){ zzz }\nvar o = {m: function f(){ g() }}\no.m()'
-    let sc : Scenario := { levels := [⟨.direct, .dot, "f", 54, []⟩, ⟨.direct, .ident, "g", 47, []⟩], pre := [], raise := .withAt 15 }
-    Spec.traceDevs src sc = [] ∧
+    let sc : Scenario := { levels := [⟨.direct, .dot, "f", 54, [], 0⟩, ⟨.direct, .ident, "g", 47, [], 0⟩], pre := [], raise := .withAt 15 }
+    Spec.traceDevs [⟨"", src⟩] sc = [] ∧
     trace [⟨"", src⟩] 10 sc =
       [⟨"g", .at "<anonymous>" 1 15⟩, ⟨"f", .at "<anonymous>" 2 27⟩, ⟨"", .at "<anonymous>" 3 1⟩] := by
   decide
@@ -382,33 +410,33 @@ example :
 /-- Dev `trace_unrecorded_callee`: the caller of an IIFE disappears from the trace. -/
 example :
     let src : Src := [102, 117, 110, 99, 116, 105, 111, 110, 32, 102, 40, 41, 123, 32, 40, 102, 117, 110, 99, 116, 105, 111, 110, 40, 41, 123, 32, 122, 122, 122, 32, 125, 41, 40, 41, 32, 125, 10, 102, 40, 41]  -- 'function f(){ (function(){ zzz })() }\nf()'
-    let sc : Scenario := { levels := [⟨.direct, .ident, "f", 39, []⟩, ⟨.direct, .other, "", 16, []⟩], pre := [], raise := .withAt 28 }
-    Spec.traceDevs src sc = ["trace_unrecorded_callee"] ∧
-    trace [⟨"", src⟩] 10 sc ≠ Spec.trace "" src 10 sc := by
+    let sc : Scenario := { levels := [⟨.direct, .ident, "f", 39, [], 0⟩, ⟨.direct, .other, "", 16, [], 0⟩], pre := [], raise := .withAt 28 }
+    Spec.traceDevs [⟨"", src⟩] sc = ["trace_unrecorded_callee"] ∧
+    trace [⟨"", src⟩] 10 sc ≠ Spec.trace [⟨"", src⟩] 10 sc := by
   decide
 
 /-- Dev `trace_implicit_call: a getter is entered without any call site being recorded in f`. -/
 example :
     let src : Src := [118, 97, 114, 32, 111, 32, 61, 32, 123, 103, 101, 116, 32, 120, 40, 41, 123, 32, 122, 122, 122, 59, 32, 125, 125, 59, 10, 102, 117, 110, 99, 116, 105, 111, 110, 32, 102, 40, 41, 123, 32, 111, 46, 120, 59, 32, 125, 10, 102, 40, 41, 59]  -- 'var o = {get x(){ zzz; }};\nfunction f(){ o.x; }\nf();'
-    let sc : Scenario := { levels := [⟨.direct, .ident, "f", 49, []⟩, ⟨.implicit, .other, "", 42, []⟩], pre := [], raise := .withAt 19 }
-    Spec.traceDevs src sc = ["trace_implicit_call"] ∧
-    trace [⟨"", src⟩, ⟨"", [0x31]⟩] 10 sc ≠ Spec.trace "" src 10 sc := by
+    let sc : Scenario := { levels := [⟨.direct, .ident, "f", 49, [], 0⟩, ⟨.implicit, .other, "", 42, [], 0⟩], pre := [], raise := .withAt 19 }
+    Spec.traceDevs [⟨"", src⟩, ⟨"", [0x31]⟩] sc = ["trace_implicit_call"] ∧
+    trace [⟨"", src⟩, ⟨"", [0x31]⟩] 10 sc ≠ Spec.trace [⟨"", src⟩, ⟨"", [0x31]⟩] 10 sc := by
   decide
 
 /-- Dev `trace_eval_file: after a direct eval the positions in f are looked up in the eval source`. -/
 example :
     let src : Src := [102, 117, 110, 99, 116, 105, 111, 110, 32, 102, 40, 41, 123, 32, 101, 118, 97, 108, 40, 34, 49, 34, 41, 59, 10, 32, 122, 122, 122, 59, 32, 125, 10, 102, 40, 41, 59]  -- 'function f(){ eval("1");\n zzz; }\nf();'
-    let sc : Scenario := { levels := [⟨.direct, .ident, "f", 34, []⟩], pre := [.directEval 15 1], raise := .withAt 27 }
-    Spec.traceDevs src sc = ["trace_eval_file"] ∧
-    trace [⟨"", src⟩, ⟨"", [0x31]⟩] 10 sc ≠ Spec.trace "" src 10 sc := by
+    let sc : Scenario := { levels := [⟨.direct, .ident, "f", 34, [], 0⟩], pre := [.directEval 15 1], raise := .withAt 27 }
+    Spec.traceDevs [⟨"", src⟩, ⟨"", [0x31]⟩] sc = ["trace_eval_file"] ∧
+    trace [⟨"", src⟩, ⟨"", [0x31]⟩] 10 sc ≠ Spec.trace [⟨"", src⟩, ⟨"", [0x31]⟩] 10 sc := by
   decide
 
 /-- Dev `errpos_no_at: instanceof on a non-object reports no position`. -/
 example :
     let src : Src := [102, 117, 110, 99, 116, 105, 111, 110, 32, 102, 40, 41, 123, 10, 32, 32, 49, 32, 105, 110, 115, 116, 97, 110, 99, 101, 111, 102, 32, 50, 59, 32, 125, 10, 102, 40, 41, 59]  -- 'function f(){\n  1 instanceof 2; }\nf();'
-    let sc : Scenario := { levels := [⟨.direct, .ident, "f", 35, []⟩], pre := [], raise := .bare 17 }
-    Spec.traceDevs src sc = ["errpos_no_at"] ∧
-    trace [⟨"", src⟩, ⟨"", [0x31]⟩] 10 sc ≠ Spec.trace "" src 10 sc := by
+    let sc : Scenario := { levels := [⟨.direct, .ident, "f", 35, [], 0⟩], pre := [], raise := .bare 17 }
+    Spec.traceDevs [⟨"", src⟩, ⟨"", [0x31]⟩] sc = ["errpos_no_at"] ∧
+    trace [⟨"", src⟩, ⟨"", [0x31]⟩] 10 sc ≠ Spec.trace [⟨"", src⟩, ⟨"", [0x31]⟩] 10 sc := by
   decide
 
 /-! ## classes -/
